@@ -224,6 +224,8 @@ def coqchk(props_vrel, timeout=1500):
     m = re.search(r'\* Axioms:(.*?)(?:\n\* |\Z)', out, flags=re.S)
     if m:
         axioms = [x.strip() for x in m.group(1).strip().splitlines() if x.strip() and x.strip() != '<none>']
+    if p.returncode == 124:
+        return None, axioms, 'coqchk did not finish within %d s' % timeout
     return p.returncode == 0, axioms, out[-1500:]
 
 
